@@ -39,14 +39,24 @@ fn bytes_eq(a: &[u8], b: &[u8]) -> bool {
     true
 }
 
-// @verif prop=C16 tier=quick timeout=600 bounds=all-2^4-present/absent-combinations-of{basename,discriminant,infix,suffix},1-2-byte-parts,no-start-time
+// @verif prop=C16 tier=quick timeout=600 bounds=the-8-present/absent-combinations-of{discriminant,infix,suffix}-with-basename(+empty-infix),1-2-byte-parts,no-start-time
 // as_pathbuf(infix) == directory / [basename][_discriminant][_infix][.suffix] with absent parts and their separators omitted (start time part suppressed: it needs the clock, see c16 with clock).
 #[kani::proof]
 #[kani::unwind(12)]
 #[kani::stub(verif_support::reexp::catch_unwind, verif_support::stub_cu)]
 fn c16_as_pathbuf_parts() {
+    as_pathbuf_parts_case(true);
+}
+// @verif prop=C16 tier=quick timeout=600 bounds=the-8-combinations-without-basename
+// The same for specifications without basename (split off to halve the wall clock).
+#[kani::proof]
+#[kani::unwind(12)]
+#[kani::stub(verif_support::reexp::catch_unwind, verif_support::stub_cu)]
+fn c16_as_pathbuf_parts_no_basename() {
+    as_pathbuf_parts_case(false);
+}
+fn as_pathbuf_parts_case(has_b: bool) {
     vs::link_all();
-    let has_b: bool = kani::any();
     let has_d: bool = kani::any();
     let has_i: bool = kani::any();
     let has_s: bool = kani::any();
@@ -93,9 +103,9 @@ fn c16_as_pathbuf_parts() {
         push(&mut fb, &mut fnn, b"dc");
     }
     assert!(bytes_eq(f.as_bytes(), &fb[..fnn]));
-    kani::cover!(!has_b && !has_d && has_i && !empty_infix && !has_s, "infix is the whole name");
-    kani::cover!(has_b && has_d && has_i && has_s, "all parts");
-    kani::cover!(!has_b && !has_d && !has_i && has_s, "suffix only");
+    kani::cover!(has_b || (!has_d && has_i && !empty_infix && !has_s), "infix is the whole name (instance without basename)");
+    kani::cover!(!has_b || (has_d && has_i && has_s), "all parts (instance with basename)");
+    kani::cover!(has_b || (!has_d && !has_i && has_s), "suffix only (instance without basename)");
     std::mem::forget(spec);
     std::mem::forget(p);
 }
@@ -319,6 +329,8 @@ fn stub_parse_rec<F: std::str::FromStr>(s: &str) -> Result<F, F::Err> {
 // presence: None = symbolic, Some(x) = concrete
 fn cfi_case(nosfx: bool, p1: Option<bool>, p2: Option<bool>, sibling_next: Option<&[u8]>) {
     vs::link_all();
+    // symbolic presence is only tractable with a listing that does not show the targets (see below)
+    vs::cell_set(7, if p1.is_none() || p2.is_none() { 1 } else { 0 });
     let e1: bool = match p1 { Some(x) => x, None => kani::any() };
     let e2: bool = match p2 { Some(x) => x, None => kani::any() };
     vs::cell_set(0, e1 as u64);
@@ -368,10 +380,14 @@ macro_rules! cfi_instance {
             let nosfx_all = sfx.is_none(); // suffix-less family: the plain listing has no suffix filter
             let mut v: Vec<PathBuf> = Vec::with_capacity(6);
             $( if nosfx_all || ends_with_gz($file) == gz { v.push(cfi_path($file)); } )*
-            if (gz || nosfx_all) && vs::cell_get(1) == 1 {
+            // cell 7 = 1: the listing misses the target files although they exist (the family filter is
+            // lossy, e.g. for suffix-less families with a dot in the basename; or the file appeared
+            // after the directory was read) - the contract of list_of_files is only "a subset of the
+            // family's files"
+            if (gz || nosfx_all) && vs::cell_get(1) == 1 && vs::cell_get(7) == 0 {
                 v.push(cfi_path(cfi_gz_name()));
             }
-            if !gz && vs::cell_get(0) == 1 {
+            if !gz && vs::cell_get(0) == 1 && vs::cell_get(7) == 0 {
                 v.push(cfi_path(cfi_plain_name()));
             }
             v
@@ -392,21 +408,22 @@ macro_rules! cfi_instance {
         }
     };
 }
-// Symbolic presence of the two targets (seen consistently by listing and exists()) did not finish
-// in 10 min: the iterator chains over heap vectors of symbolic length defeat CBMC's constant
-// propagation (every downstream loop is unwound to the bound). The directory states are therefore
-// enumerated: one concrete state per instance; the solver discharges the panic / bounds / overflow
-// checks of the real code along it and the oracle below.
-// @verif prop=C06,C16 tier=probe timeout=900 bounds=timestamp-infix"rT",spec(b,suffix-l),no-restart-sibling,presence-of-b_rT.l-and-b_rT.l.gz-symbolic(consistent-in-listing-and-exists)
-// BUDGET GATE: no result in 10 min. No restart sibling, presence of the targets symbolic.
+// Any *non-empty* listing did not finish (15 min, also for one concrete file): the function's
+// iterator chains over heap vectors defeat CBMC's constant propagation, every downstream loop
+// (two-way string search, path parsing) is then unwound to the bound. Those instances stay probes.
+// What is decided: the listing shows nothing of this infix, while the existence of the two target
+// names is symbolic - listed-but-missing cannot happen, existing-but-not-listed can (lossy family
+// filter for dotted suffix-less names, files appearing after the directory was read).
+// @verif prop=C06,C16,C01 tier=quick timeout=900 bounds=timestamp-infix"rT",spec(b,suffix-l),listing-shows-nothing-of-this-infix,existence-of-b_rT.l-and-b_rT.l.gz-symbolic
+// No restart sibling listed: the infix is used as is iff neither <name>_rT.l nor <name>_rT.l.gz exists (existence symbolic, asked for exactly these two paths); otherwise a restart suffix is appended - a rotated file never takes the name of an existing plain or compressed file.
 cfi_instance!(c06_cfi_no_siblings, cfi_dir_0, false, None, None, [], None);
 // @verif prop=C06,C16 tier=quick timeout=900 bounds=timestamp-infix"rT",spec(b,suffix-l),directory{}
 // Nothing of this infix in the directory: the infix is used as is.
 cfi_instance!(c06_cfi_dir_empty, cfi_dir_00, false, Some(false), Some(false), [], None);
-// @verif prop=C06,C01 tier=quick timeout=900 bounds=directory{b_rT.l}
+// @verif prop=C06,C01 tier=probe timeout=900 bounds=directory{b_rT.l}
 // The plain target exists: a restart suffix is appended (never rename onto / truncate an existing rotated file).
 cfi_instance!(c06_cfi_dir_plain, cfi_dir_10, false, Some(true), Some(false), [], None);
-// @verif prop=C06 tier=quick timeout=900 bounds=directory{b_rT.l.gz}
+// @verif prop=C06 tier=probe timeout=900 bounds=directory{b_rT.l.gz}
 // Only the compressed target exists: a restart suffix is appended (a later compression would overwrite it otherwise).
 cfi_instance!(c06_cfi_dir_gz, cfi_dir_01, false, Some(false), Some(true), [], None);
 // @verif prop=C06 tier=probe timeout=900 bounds=directory{b_rT.restart-0000.l,b_rT.l}
